@@ -116,6 +116,12 @@ func Canon(v Val) any {
 			return map[string]any{"Title": "Ms", "Extra": true, "Num": int64(9)}
 		}
 		return map[string]any{"Num": "n"}
+	case "deep":
+		var cur any = map[string]any{"leaf": v.I}
+		for i := int64(0); i < v.I; i++ {
+			cur = map[string]any{"d": cur}
+		}
+		return cur
 	case "sharedptr":
 		s := sharedPtrs[int(v.I)%len(sharedPtrs)]
 		links := make([]any, len(s.Links))
@@ -325,11 +331,11 @@ func recvNative(c CallSpec) any {
 // per type: two free names, two names of built-ins of that type, two names that are
 // built-ins of OTHER receiver types only
 var c20Names = map[string][]string{
-	"str":   {"foo", "bar", "trim", "len", "abs", "join"},
-	"arr":   {"foo", "bar", "join", "len", "upper", "ceil"},
-	"int":   {"foo", "bar", "abs", "str", "join", "trim"},
-	"float": {"foo", "bar", "abs", "ceil", "len", "reverse"},
-	"bool":  {"foo", "bar", "then", "binary", "reverse", "len"},
+	"str":   {"foo", "bar", "trim", "len", "abs", "join", "sha256", "to_b64"},
+	"arr":   {"foo", "bar", "join", "len", "upper", "ceil", "top10", "_x"},
+	"int":   {"foo", "bar", "abs", "str", "join", "trim", "mod10", "h1"},
+	"float": {"foo", "bar", "abs", "ceil", "len", "reverse", "f2", "r_2"},
+	"bool":  {"foo", "bar", "then", "binary", "reverse", "len", "b1", "is_0"},
 }
 var c20Types = []string{"str", "arr", "int", "float", "bool"}
 
@@ -340,7 +346,7 @@ func genArg(r *Rng, depth int) Val {
 	case c < 3:
 		return Val{T: "int64", I: Pick(r, []int64{math.MaxInt64, math.MinInt64, math.MaxInt64 - 1, 1 << 53})}
 	case c < 5:
-		return VStr(Pick(r, []string{"", "x", "héllo wörld", "日本語", "a<b & c", `q"t`, "it's", "line\nbreak", "  "}))
+		return VStr(Pick(r, []string{"", "x", "héllo wörld", "日本語", "a<b & c", `q"t`, "it's", "line\nbreak", "  ", "Tom &amp; Jerry", "&lt;b&gt;", "/s?a=1&lt=2&copy=3", "&#39;x&#39;"}))
 	case c < 6:
 		return VFloat(Pick(r, []float64{0.5, -2.25, 1e10, 3.0, 0.1}))
 	case c < 7:
@@ -385,7 +391,7 @@ func genArg(r *Rng, depth int) Val {
 func genRecv(r *Rng, typ string) Val {
 	switch typ {
 	case "str":
-		return VStr(Pick(r, []string{"abc", "", "Hello World", "ünï", "a<b", "x y"}))
+		return VStr(Pick(r, []string{"abc", "", "Hello World", "ünï", "a<b", "x y", "R &amp; D", "&copy; 2026"}))
 	case "arr":
 		n := r.Range(0, 3)
 		a := Val{T: "arr"}
@@ -890,7 +896,7 @@ func (p c20) Run(seed uint64, run int, tier string, acc *Acc) *Violation {
 		var first *Violation
 		seen := map[string]bool{}
 		for _, typ := range c20Types {
-			for _, name := range c20Names[typ][4:] {
+			for _, name := range c20Names[typ][4:6] {
 				t2 := builtinFor[name]
 				if t2 == "" || t2 == typ {
 					continue
